@@ -9,7 +9,7 @@ RULE = ("random nestings (depth<=4) of dynamically created Detector subclasses w
         "`triggered` signatures, CombinedDetectors, bare antennas and antenna lists, combined by random "
         "expression trees over +, += and sum; a case is non-trivial when it involves at least one "
         "combination or a nested detector; distinct = distinct (expression, query) pairs")
-ASSUMPTIONS = ["Detector.build_antennas keyword routing is covered by the search oracle only (not in the Lean model)",
+ASSUMPTIONS = [
                "plain `Detector` (the abstract base) is never instantiated directly, so the reflected-operator "
                "priority rule for subclasses never applies"]
 
@@ -92,6 +92,48 @@ def det_class(accepts, star):
                {"set_positions": set_positions, "triggered": ns["triggered"], "_trig": _trig})
     _det_classes[key] = cls
     return cls
+
+
+BUILD_POOL = ["p", "q", "r", "s"]
+_build_classes = {}
+BUILD_LOG = []
+
+
+def build_class(params):
+    key = tuple(params)
+    if key not in _build_classes:
+        pyrex = _pyrex()
+
+        def set_positions(self, subsets, tag=0):
+            self.tag = tag
+            self.subsets = list(subsets)
+            if all(not hasattr(s, "__iter__") for s in subsets):
+                self.antenna_positions = [s.position for s in subsets]
+        ns = {}
+        exec("def build_antennas(self, %s):\n    _log.append((self.tag, sorted(k for k, v in [%s] if v is not _NP)))\n"
+             % (", ".join("%s=_NP" % p_ for p_ in params), ", ".join("(%r, %s)" % (p_, p_) for p_ in params)),
+             {"_NP": _NP, "_log": BUILD_LOG}, ns)
+        _build_classes[key] = type("B_" + "_".join(params), (pyrex.Detector,),
+                                   {"set_positions": set_positions, "build_antennas": ns["build_antennas"]})
+    return _build_classes[key]
+
+
+def build_route_impl(sigs, kw):
+    """call Parent.build_antennas(**kw) on a detector whose sub-detectors have the given signatures"""
+    pyrex = _pyrex()
+    subs = [build_class(q)([ant_class()(10 * i + 1, False, False, False)], tag=i) for i, q in enumerate(sigs)]
+
+    class Parent(pyrex.Detector):
+        def set_positions(self, subsets):
+            self.subsets = list(subsets)
+    par = Parent(subs)
+    del BUILD_LOG[:]
+    try:
+        par.build_antennas(**{k: 1 for k in kw})
+    except TypeError:
+        return "typeerror"
+    got = dict(BUILD_LOG)
+    return "ok " + ";".join(",".join(got.get(i, ["<not called>"])) for i in range(len(sigs)))
 
 
 # ---- random trees (as nested tuples), their Python objects and their protocol tokens
@@ -312,9 +354,32 @@ def correspondence(run):
         reqs.append("strip %d %s %d %s" % (len(acc), " ".join(acc), len(kw), " ".join(kw)))
         expect.append("ok " + ",".join(k for k in kw if k in acc))
         descs.append(("strip", acc, kw))
+    # build_antennas keyword routing through a detector made of sub-detectors
+    for _ in range(run.scale(40, 400)):
+        nsub = run.rng.randint(1, 3)
+        same = run.rng.random() < 0.35
+        first = ["antenna_class"] + run.rng.sample(BUILD_POOL, run.rng.randint(0, 3))
+        sigs = [list(first) if same else ["antenna_class"] + run.rng.sample(BUILD_POOL, run.rng.randint(0, 3))
+                for _ in range(nsub)]
+        kw = ["antenna_class"] + run.rng.sample(BUILD_POOL + ["zz"], run.rng.randint(0, 3))
+        imp = build_route_impl(sigs, kw)
+        reqs.append("build %d %s %d %s" % (nsub, " ".join("%d %s" % (len(q), " ".join(q)) for q in sigs), len(kw), " ".join(kw)))
+        expect.append(imp)
+        descs.append(("build", tuple(map(tuple, sigs)), tuple(kw)))
+        run.count("build_routes")
     replies = fw.run_driver("C19", reqs)
     ok = True
     for rq, ex, rp, d in zip(reqs, expect, replies, descs):
+        if d[0] == "build":
+            got = rp if rp == "typeerror" else "ok " + ";".join(",".join(sorted(x for x in part.split(",") if x))
+                                                                  for part in rp[3:].split(";"))
+            run.case(d, nontrivial=len(d[1]) > 1, sample={"request": rq, "model": rp})
+            if got == ex:
+                run.traces += 1
+            else:
+                ok = False
+                run.note_broken("correspondence: request `%s` model `%s` implementation `%s`" % (rq, rp, ex))
+            continue
         nontrivial = (" P " in rq or " I " in rq or " S " in rq or " C " in rq or rq.count(" D ") > 1)
         run.case(d, nontrivial=nontrivial, sample={"request": rq[:300], "model": rp[:200]})
         if d[0] == "trig":
